@@ -1,9 +1,31 @@
 """C06 — every exported package is closed and self-consistent (DESIGN.md 6.9)."""
-import json
+import json, copy
 from . import core, design as D
 
 IMPORTS = ("Require Import Hdl21.Base.PyInt Hdl21.Base.Design Hdl21.Base.Package Hdl21.Corr.C03 Hdl21.Corr.C06.")
 EXAMPLES = ["ro", "rdac", "encoder", "mos_sim", "diff_ota", "idac", "bundles"]
+
+
+def deep_nameclash(r, d):
+    """Give a module the name of a module at least two instantiation levels below it (or the other way round)."""
+    kids = {k: sorted({x["of"][1] for x in md["insts"] if x["of"][0] == "mod"}) for k, md in enumerate(d["mods"])}
+    def below(k, depth):
+        out, frontier = {}, {k}
+        for lv in range(1, depth + 1):
+            frontier = {c for f in frontier for c in kids[f]}
+            for c in frontier:
+                out.setdefault(c, lv)
+        return out
+    from .c02 import reachable
+    pairs = [(a, b) for a in reachable(d) for b, lv in below(a, 6).items() if lv >= 2 and b not in kids[a]]
+    if not pairs:
+        return None
+    a, b = r.choice(pairs)
+    if r.random() < 0.5:
+        d["mods"][b]["name"] = d["mods"][a]["name"]
+    else:
+        d["mods"][a]["name"] = d["mods"][b]["name"]
+    return d
 
 
 def run(run, tier, seed, replay=None):
@@ -21,6 +43,27 @@ def run(run, tier, seed, replay=None):
     for k in range(ndes):
         r = core.rng(seed, "C06", "designs", k)
         jobs.append(dict(source="design", design=D.gen_design(r, size=r.choice([1, 2, 3]), devs=[("R", 2), ("C", 2)] if k % 3 else None)))
+    # stressed designs: single-fault mutants of valid designs (the C02 mutators) and module-name clashes at every depth.
+    # Most are rejected by the implementation, which is fine here: whatever package IS returned must be well-formed.
+    from . import c02 as M
+    nstress = 200 if quick else 4000
+    k = made = 0
+    stress_kinds = {}
+    while made < nstress and k < 20 * nstress:
+        r = core.rng(seed, "C06", "stress", k)
+        k += 1
+        base = D.gen_design(r, size=r.choice([2, 3]), devs=[("R", 2), ("C", 2)])
+        kind = r.choice(["index", "index", "empty", "nameclash", "deepclash", "deepclash", "width", "array_width", "extra", "missing", "unnamed"])
+        if kind == "deepclash":
+            mut = deep_nameclash(r, copy.deepcopy(base))
+        else:
+            st = M.sites(base)
+            mut = M.MUTATORS[kind](r, copy.deepcopy(base), r.choice(st)) if st else None
+        if mut is None:
+            continue
+        made += 1
+        stress_kinds[kind] = stress_kinds.get(kind, 0) + 1
+        jobs.append(dict(source="design", design=mut, stress=kind))
     if replay is not None:
         jobs = [replay["job"]]
     # examples and generators share process-global caches: one interpreter per example, sharded otherwise
@@ -47,6 +90,10 @@ def run(run, tier, seed, replay=None):
     nontrivial = len({json.dumps(p["pkg"], sort_keys=True) for p in pk
                       if sum(len(m["insts"]) for m in p["pkg"]["mods"]) >= 2})
     netlisted = sum(1 for p in pk if p["accept"]["spice"] is None)
+    stressed = [ji for ji, j in enumerate(jobs) if j.get("stress")]
+    run.stream("stressed-designs", len(stressed), len({json.dumps(jobs[ji]["design"], sort_keys=True) for ji in stressed}),
+               by_fault_kind=stress_kinds, accepted_by_impl=sum(1 for ji in stressed if outs[ji]["pkgs"]),
+               rule="single-fault mutants and module-name clashes at depth >= 2; every package the implementation still returns is checked like any other")
     run.stream("packages", len(pk), nontrivial, by_source=by_src, netlisted_spice_spectre=netlisted,
                with_physical_primitives_not_netlisted=sum(1 for p in pk if p["accept"]["physical"]),
                rule="non-trivial = at least two instances in the package; distinct by package content")
